@@ -39,7 +39,7 @@ func (c *ConstantOfShape) Init(n *onnx.NodeProto) error {
 				return err
 			}
 
-			c.value = tensor.New(tensor.WithBacking(t.Data()))
+			c.value = tensor.New(tensor.WithBacking(ops.IfScalarToSlice(t.Data())))
 			if c.value.Len() != 1 {
 				return ops.ErrInvalidTensor("expected tensor to have one element", c)
 			}
